@@ -5,6 +5,24 @@ import json, os, subprocess
 ROOT = os.path.dirname(os.path.dirname(os.path.abspath(__file__)))
 
 CLAIMED = {
+ "C02": dict(
+   text="Path resolution as executable Gallina over arbitrary forests (functions from canonical paths to Dir | File | Link abs target): the "
+        "kernel's walk (`kwalk` / `kres`: component by component, '..' applied to the directory reached, links expanded in place, 40-link "
+        "limit, follow / no-follow of the last component) and the code's (`cwalk` / `cres` / `presented`: resolveTraceePathOnce, the 40 rounds "
+        "and the final Clean of resolveTraceePath, absPath / absPathAt base selection).  Theorems: C02_presented_path (for EVERY forest, base "
+        "directory and pathname, if the kernel's resolution succeeds the presented path is the object it reaches - by induction on the "
+        "number of links with a simulation lemma per walk), C02_presented_path_nofollow_partial + C02_nofollow_refuted (known finding), "
+        "C02_handle_table_abi (argument positions and classes of all 30 rows of Handle = the ABI table), C02_open_class (all flag words: an "
+        "open that can create / truncate / write is a write), C02_openat2_failclosed, C02_fdcwd_any_encoding, "
+        "C02_dirfd_upper_half_ignored.  Tie on every run: 10 forests on disk x 260 really traced path syscalls with exact register values "
+        "(all 26 calls of this architecture, dirfd sign- / zero-extended / garbage upper half, descriptor-relative, after chdir / fchdir, "
+        "/proc/self aliases, 43-link chains, loops, dangling links); three-way comparison in Coq of the handler's question, the kernel's own "
+        "resolution reported by the program (O_PATH + /proc/self/fd) and the model; classes against class_of (handle_table ..).",
+   note="Partial: /proc magic links are outside the forest model (compared code-against-kernel only); the rows stat64 / lstat64 / fstatat / "
+        "fstatat64 of Handle cannot occur on x86-64 and are covered by the table theorem only; reading the pathname from tracee memory is C15's "
+        "GetString.  Trusted: Coq kernel + vm_compute; the kernel's resolution is an assumption validated on every run.",
+   technique="Coq proof by induction (simulation of the kernel's path walk by the code's, for all forests and pathnames) + three-way differential runs through a real tracer",
+   design="§5 C02"),
  "C13": dict(
    text="Reset and the sealed executable as executable Gallina: trees of typed entries with arbitrary names / depths / permission bits, "
         "`populate` (any history of creations), `remove_contents` (list the names, remove each entry whatever it is) and `reset` (every "
